@@ -6,6 +6,10 @@ import (
 	"os/exec"
 	"path/filepath"
 	"strings"
+	"syscall"
+
+	"github.com/go-git/go-billy/v5"
+	"github.com/go-git/go-billy/v5/osfs"
 
 	"github.com/MichaelMure/git-bug/entities/bug"
 	"github.com/MichaelMure/git-bug/entities/identity"
@@ -177,6 +181,8 @@ func runC05(c *runCtx) {
 	}
 	c05Entity(c)
 	c05Directed(c)
+	c05ForeignPush(c)
+	c05TransientOpen(c)
 	c05Rebuild(c)
 	c05CLI(c)
 	c06Clocks(c, "C05") // every crash point of a clock write: the clock never goes back
@@ -468,3 +474,133 @@ func c05HopLimit(c *runCtx) {
 }
 
 var _ = identity.Identity{}
+
+// c05ForeignPush: a local ref that moved without this repository ever reading the new commits
+// (another clone pushed straight into it), then a pull that has to write a merge commit: the merge
+// commit's edit time must still be above both parents' — the merge reads, hence witnesses, both sides.
+func c05ForeignPush(c *runCtx) {
+	for rep := 0; rep < c.pick(3, 20); rep++ {
+		r := c.rng.fork()
+		s := newReplicaSys(c, r, 3)
+		A, B, C := s.reps[0], s.reps[1], s.reps[2]
+		s.newBug(A)
+		s.push(A)
+		s.pull(B, false)
+		s.pull(C, false)
+		if err := B.repo.AddRemote("peer", A.repo.GetLocalRemote()); err != nil {
+			panic(err)
+		}
+		for k := 0; k < r.rangeInt(2, 5); k++ {
+			s.edit(B, 1)
+		}
+		if _, err := bug.Push(B.repo, "peer"); err != nil {
+			c.count("foreign-push=refused")
+			s.close()
+			cleanupScratch()
+			continue
+		}
+		s.logf("B:push@A")
+		s.edit(C, 1)
+		s.push(C)
+		// diverged: A's ref holds B's commits, which A never read — and does not read now either, except
+		// through the merge itself (the replica engine's own pull reads every bug first, for its oracle)
+		if _, err := bug.Fetch(A.repo, "origin"); err != nil {
+			panic(err)
+		}
+		for res := range bug.MergeAll(A.repo, resolversFor(A.repo), "origin", s.authors[0]) {
+			if res.Err != nil {
+				c.violation(-1, "C05/merge-failed", fmt.Sprintf("after %v the merge on A fails: %v", s.log, res.Err), nil)
+			}
+		}
+		s.logf("A:pull(raw)")
+		for _, id := range s.bugIds {
+			if _, err := safeRead(A.repo, id); err != nil {
+				c.violation(-1, "C05/cannot-read-own-write", fmt.Sprintf("after %v replica A cannot read the bug it has just merged: %v", s.log, err), nil)
+			}
+		}
+		s.edit(A, 1)
+		for _, id := range s.bugIds {
+			if _, err := safeRead(A.repo, id); err != nil {
+				c.violation(-1, "C05/cannot-read-own-write", fmt.Sprintf("after %v replica A cannot read back what it wrote: %v", s.log, err), nil)
+			}
+		}
+		c.count("foreign-push-then-merge")
+		s.close()
+		cleanupScratch()
+	}
+}
+
+// failOpenFS fails one Open of a clock file with "too many open files".
+type failOpenFS struct {
+	billy.Filesystem
+	armed bool
+}
+
+func (f *failOpenFS) Open(name string) (billy.File, error) {
+	if f.armed {
+		f.armed = false
+		return nil, &os.PathError{Op: "open", Path: name, Err: syscall.EMFILE}
+	}
+	return f.Filesystem.Open(name)
+}
+
+func (f *failOpenFS) OpenFile(name string, flag int, perm os.FileMode) (billy.File, error) {
+	if f.armed && flag&os.O_CREATE == 0 {
+		f.armed = false
+		return nil, &os.PathError{Op: "open", Path: name, Err: syscall.EMFILE}
+	}
+	return f.Filesystem.OpenFile(name, flag, perm)
+}
+
+// c05TransientOpen: the first access of a process to an existing clock fails for a passing reason
+// (file descriptors exhausted).  That is an error — not "this clock does not exist": the caller
+// (GoGitRepo.GetOrCreateClock) answers the latter by creating the clock anew at 1 over the intact file.
+func c05TransientOpen(c *runCtx) {
+	for rep := 0; rep < c.pick(3, 20); rep++ {
+		r := c.rng.fork()
+		dir := scratch("c05open")
+		fs := &failOpenFS{Filesystem: osfs.New(dir)}
+		clk, err := lamport.NewPersistedClock(fs, "clocks/bugs-edit")
+		if err != nil {
+			panic(err)
+		}
+		n := r.rangeInt(3, 60)
+		for k := 0; k < n; k++ {
+			clk.Increment()
+		}
+		before := uint64(clk.Time())
+		// a new process
+		var after uint64
+		var steps []string
+		for try := 0; try < 2; try++ {
+			fs.armed = try == 0
+			c2, err := lamport.LoadPersistedClock(fs, "clocks/bugs-edit")
+			if err == lamport.ErrClockNotExist {
+				// what the repository does with that answer
+				steps = append(steps, "load: does not exist -> created anew")
+				c2, err = lamport.NewPersistedClock(fs, "clocks/bugs-edit")
+			}
+			if err != nil {
+				steps = append(steps, "load: error ("+trunc(err.Error(), 40)+")")
+				continue
+			}
+			v, err := c2.Increment()
+			if err != nil {
+				steps = append(steps, "increment: error")
+				continue
+			}
+			after = uint64(v)
+			steps = append(steps, fmt.Sprintf("increment -> %d", after))
+			break
+		}
+		c.count("transient-open")
+		if after != 0 && after <= before {
+			c.violation(-1, "C05/clock-went-back", fmt.Sprintf("a clock standing at %d, whose file could not be opened once (too many open files), handed out %d afterwards: %v", before, after, steps), nil)
+		}
+		fs.armed = false
+		if c3, err := lamport.LoadPersistedClock(fs, "clocks/bugs-edit"); err != nil || uint64(c3.Time()) < before {
+			c.violation(-1, "C05/clock-went-back", fmt.Sprintf("after a failed open the clock file no longer holds at least %d (%v)", before, err), nil)
+		}
+		os.RemoveAll(dir)
+	}
+}
